@@ -341,9 +341,98 @@ fn check(c: &CaseZ, index: usize) -> (Vec<Violation>, &'static str) {
     }
 }
 
+/// Single constraints with two operands at the ends of the integer range whose exact result still
+/// fits: the third is the unique solution, or there is no answer; never a panic.
+fn extremes(ctx: &mut Ctx) -> u64 {
+    let consts: Vec<i64> = vec![i64::MIN, i64::MIN + 1, i64::MAX, -1, 0, 1, 2];
+    let mut cases: Vec<(bool, usize, i64, i64)> = vec![];
+    for times in [false, true] {
+        for pos in 0..3usize {
+            for a in &consts {
+                for b in &consts {
+                    cases.push((times, pos, *a, *b));
+                }
+            }
+        }
+    }
+    let sel: Vec<usize> = match &ctx.replay {
+        Some(r) if r.family == "c19-extremes" => vec![r.index],
+        Some(_) => vec![],
+        None => (0..cases.len()).collect(),
+    };
+    let res: Vec<Option<Violation>> = par_map(&sel, |_, i| {
+        crate::ev::progress("c19-extremes", *i, &Value::Null);
+        let (times, pos, a, b) = cases[*i];
+        // operands: the unknown q at `pos`, the constants in the other two positions in order
+        let mut ops: Vec<T> = vec![];
+        let mut k = [a, b].into_iter();
+        for j in 0..3 {
+            ops.push(if j == pos { T::V(0) } else { T::I(k.next().unwrap()) });
+        }
+        let g = if times { G::TimesZ(ops[0].clone(), ops[1].clone(), ops[2].clone()) } else { G::PlusZ(ops[0].clone(), ops[1].clone(), ops[2].clone()) };
+        let p = Program { nq: 1, body: vec![g] };
+        let out = run_query(1, &p, 5, 100_000);
+        let sig = p.to_string();
+        let mk = |kind: &str, detail: String, site: String| Some(Violation { kind: kind.into(), sig: sig.clone(), site, detail, family: "c19-extremes".into(), index: *i, schedule: vec![], data: Value::Null });
+        // exact integer semantics in i128
+        let (a, b) = (a as i128, b as i128);
+        let (lo, hi) = (i64::MIN as i128, i64::MAX as i128);
+        #[derive(PartialEq, Debug)]
+        enum Exp {
+            None,
+            One(i128),
+            Any,
+        }
+        let exp = match (times, pos) {
+            (false, 2) => Exp::One(a + b),
+            (false, _) => Exp::One(b - a),
+            (true, 2) => Exp::One(a * b),
+            // q * a = b (or a * q = b)
+            (true, _) => {
+                if a == 0 {
+                    if b == 0 { Exp::Any } else { Exp::None }
+                } else if b % a == 0 {
+                    Exp::One(b / a)
+                } else {
+                    Exp::None
+                }
+            }
+        };
+        // C19 / C23 speak about programs whose intermediate integers stay within isize: a case
+        // whose exact result (sum, difference, product, quotient) does not fit is not judged
+        // (plusz computes w - u with plain `-`, which is an overflow there)
+        if let Exp::One(v) = &exp {
+            if *v < lo || *v > hi {
+                return None;
+            }
+        }
+        if times && pos != 2 && a != 0 && (b / a < lo || b / a > hi) {
+            return None;
+        }
+        if let End::Panic(m) = &out.end {
+            return mk("panic", m.clone(), panic_site(m));
+        }
+        let got: Vec<String> = out.answers.iter().map(|x| x.terms[0].to_string()).collect();
+        let ok = match &exp {
+            Exp::None => out.answers.is_empty(),
+            Exp::One(v) => got == vec![v.to_string()],
+            Exp::Any => out.answers.len() == 1 && out.answers[0].terms[0].is_var(),
+        };
+        if !ok {
+            return mk("extreme-operands", format!("answers {:?}, integer arithmetic gives {:?}", got, exp), String::new());
+        }
+        None
+    });
+    for v in res.into_iter().flatten() {
+        ctx.violation(v);
+    }
+    ctx.hist("extreme-operand-cases", sel.len() as u64);
+    sel.len() as u64
+}
+
 pub fn run(ctx: &mut Ctx) {
     let quick = ctx.quick();
-    ctx.set("rule", json!("E3: plusz / timesz x every operand pattern over {x, y, z} and {-3, -2, 0, 1, 2, 6} (thorough: 8 values) (all aliasings) x every groundness pattern (each variable never bound or bound to one of the values by a separate `==`) x EVERY order of the statements, plus chains of two constraints sharing one variable in every pair of operand positions (72 shapes + 4 hand-picked), plus single constraints one of whose operands is unified with a partner variable by a separate `==` (both orientations, the value bound directly or through the partner, every statement order; the partner is observed too); oracle: integer arithmetic closure (all ground -> equation must hold; two ground -> third bound to the unique solution, failure if none, still constrained if every integer works; fewer -> still constrained); never a panic. distinct_nontrivial = cases where a third operand is derived."));
+    ctx.set("rule", json!("E3: plusz / timesz x every operand pattern over {x, y, z} and {-3, -2, 0, 1, 2, 6} (thorough: 8 values) (all aliasings) x every groundness pattern (each variable never bound or bound to one of the values by a separate `==`) x EVERY order of the statements, plus chains of two constraints sharing one variable in every pair of operand positions (72 shapes + 4 hand-picked), plus single constraints one of whose operands is unified with a partner variable by a separate `==` (both orientations, the value bound directly or through the partner, every statement order; the partner is observed too); oracle: integer arithmetic closure (all ground -> equation must hold; two ground -> third bound to the unique solution, failure if none, still constrained if every integer works; fewer -> still constrained); never a panic. Family c19-extremes: one constraint with two constant operands from {isize::MIN, MIN+1, isize::MAX, -1, 0, 1, 2} and the third unknown, in every position: cases whose exact sum / difference / product / quotient is an isize (intermediate integers within isize, as C23 defines well-formed): the unknown is the unique integer solution, no answer if there is none (exact arithmetic in i128), never a panic. distinct_nontrivial = cases where a third operand is derived."));
     let cs = cases(if quick { 1 } else { 2 });
     let sel: Vec<usize> = match &ctx.replay {
         Some(r) if r.family == "c19" => vec![r.index],
@@ -364,8 +453,9 @@ pub fn run(ctx: &mut Ctx) {
     for c in cs.iter().step_by((cs.len() / 4).max(1)).take(4) {
         ctx.sample(json!({"program": c.program.to_string()}));
     }
-    ctx.set("evaluations", json!(sel.len()));
-    ctx.set("programs", json!(sel.len()));
+    let ex = extremes(ctx) as usize;
+    ctx.set("evaluations", json!(sel.len() + ex));
+    ctx.set("programs", json!(sel.len() + ex));
     ctx.set("states", json!(sel.len()));
     ctx.set("transitions", json!(sel.len()));
     ctx.set("traces_validated_against_impl", json!(sel.len()));
